@@ -17,6 +17,8 @@ JSON descriptions
                 | {"t": "op", "op": "+-*/^", "a": node, "b": node}
                 | {"t": "neg", "a": node} | {"t": "fn", "fn": "exp"|"log10", "a": node}
                 | {"t": "cls", "cls": <name>, "args": [node...] | None, "keys": [str...] | None, "style": ..., ...}
+                  style: "list" (default) | "scalar" | "dict" (keyed by argument_names, else by unique_keys; optional
+                  "dorder" = insertion order of the keys as a permutation of the positions in "args")
     case          {"root": node, "wrap": "none"|"ma"|"ma*x"|"x*ma"|"ma/x"|"x/ma", "b": node | None,
                    "rxn": {"reac": {..}, "prod": {..}, "inact": {..}}, "env": {...}, "via": "call"|"rate",
                    "usys": None | {"m": name, "kg": name, "s": name, "K": name, "mol": name}, "sub": <sub-check>}
@@ -881,7 +883,10 @@ class Builder(object):
             return K(unique_keys=tuple(keys))
         built = [self.arg(a) for a in args]
         if style == "dict":
-            built = dict(zip(arg_names(nd), built))
+            # keyed by argument_names, or (classes without argument_names) by unique_keys; "dorder" is the insertion
+            # order of the keys (a permutation of the given positions); fewer keys than names = defaults for the rest
+            names = arg_names(nd) or keys
+            built = dict((names[i], built[i]) for i in (nd.get("dorder") or range(len(built))))
         elif style == "scalar":
             built = built[0]
         if keys is None:
@@ -1220,20 +1225,32 @@ def gen_cls(S, cls, positive=True, allow_nested=0, uo=None):
     node["args"] = args
     fixed = cls in FIXED_ARGS or cls == "Radiolytic"
     # construction style
-    if fixed and nargs == nargs_of(node) and S.pct(10):
+    if fixed and (S.pct(22) if nargs == nargs_of(node) else S.pct(6)):
+        # dict of named arguments, keys inserted in any order; with fewer keys than names (Eyring, EyringHS) the
+        # trailing arguments take their defaults
         node["style"] = "dict"
+        if nargs > 1:
+            node["dorder"] = list(d(st.permutations(list(range(nargs)))))
     elif nargs == 1 and cls in ("MassAction", "MassActionEq", "Constant", "Radiolytic") and args[0]["t"] != "name" \
             and S.pct(15):
         node["style"] = "scalar"
     # unique keys and overrides
     if cls != "Constant" and S.pct(S.keyp):
-        m = d(st.integers(1, nargs))
+        # classes without argument_names: "converted to a list using ... self.unique_keys" - a dict keyed by the
+        # unique keys (then every argument needs a key)
+        unshifted = (cls in POLY and not POLY[cls][2]) or (cls == "Poly" and not node.get("shift"))
+        bykeys = unshifted and node.get("style") is None and S.pct(35)
+        m = nargs if bykeys else d(st.integers(1, nargs))
         keys = []
         for i in range(m):
             S.shared["nkeys"] += 1
             keys.append("k%d_%s" % (S.shared["nkeys"], i))
         node["keys"] = keys
         allover = fixed and m >= n_required and node.get("style") is None and S.pct(20)
+        if bykeys:
+            node["style"] = "dict"
+            if nargs > 1:
+                node["dorder"] = list(d(st.permutations(list(range(nargs)))))
         for i, k in enumerate(keys):
             if allover or S.pct(60):
                 S.over[k] = pos[i]()
